@@ -21,6 +21,7 @@ needs no knowledge of how the tail is written; what it cannot interpret it repor
 rules stay in charge."""
 import math
 from . import absint
+from . import util
 from .absint import Interp, Iv, Sym
 
 TWO_PI = 2 * math.pi
@@ -176,8 +177,12 @@ class Tail:
                 me[f['name']] = Sym(f['name'])
         I = Interp(self.prog, H, fuel=600000, max_paths=16)
         I.symbolic, I.oracle = True, oracle
+        th = util.table_locals(self.b)[0]
+        if th is not None:
+            I.watch = (self.b.path, th)
         args = [('refval', me, ()), ('refval', Sym('pose-arg'), ())] + ([Sym('j6-arg')] if self.five else [])
         outs = I.run(self.b.path, args)
+        self.last_table = getattr(I, 'watched', None)
         if len(outs) != 1:
             raise absint.Undecided('the solver forks (%d outcomes)' % len(outs))
         ret = outs[0].ret
@@ -244,6 +249,7 @@ class Tail:
         self.baseline = [()] * 0
         rows, log = self.run(sc)
         self.baseline = [tuple(strip_turns(x)[0] for x in r) for r in rows]
+        self.table = self.last_table           # the candidate table `theta` as the baseline run computed it
         self.gates = list(log['gate'])
         return rows, log
 
@@ -359,5 +365,12 @@ class Tail:
                         if is_param_elem(x, 'offsets', c):
                             x, o = o, x
                         ok = is_param_elem(o, 'offsets', c) and not (tags_of(x) == set())
+                        # ... and the angle is entry [r][c] of the candidate table (not another column's, not another row's)
+                        tb = getattr(self, 'table', None)
+                        if ok and isinstance(tb, (tuple, list)) and len(tb) == 8 and all(isinstance(row, (tuple, list)) and len(row) >= self.ncols for row in tb):
+                            ok = strip_turns(tb[r][c])[0] == strip_turns(x)[0]
+                        elif ok:
+                            # no table to compare with: at least no two slots of one candidate may carry the same angle
+                            ok = not any(cc != c and isinstance(brow[cc], Sym) and repr(x) in repr(brow[cc]) for cc in range(self.ncols))
                 out.append((r, c, ok, repr(e)[:160]))
         return out
